@@ -875,7 +875,7 @@ let bNR = null;
 let bNF = null;
 if (join_matches.length == 1)
     [bNR, bNF, record_b] = join_matches[0];
-let up_fields = record_a;
+let up_fields = record_a.slice(); // Never modify (or alias) the caller's input records
 __RBQLMP__variables_init_code
 if (join_matches.length == 1 && (__RBQLMP__where_expression)) {
     NU += 1;
@@ -887,7 +887,7 @@ if (!await query_context.writer.write(up_fields))
 
 
 const PROCESS_UPDATE_SIMPLE = `
-let up_fields = record_a;
+let up_fields = record_a.slice(); // Never modify (or alias) the caller's input records
 __RBQLMP__variables_init_code
 if (__RBQLMP__where_expression) {
     NU += 1;
